@@ -94,8 +94,13 @@ func genGeneric(prop string, tweak func(g *genCtx), mix Mix) func(seed, run int6
 				g.opProvide(g.pickScope())
 			}
 		}
-		if g.tmpl == nil && g.ft.DeepChains && g.r.P(0.04) {
-			g.tmpl = (*genCtx).tmplDeepChain
+		if g.tmpl == nil && g.ft.DeepChains {
+			switch x := g.r.Intn(100); {
+			case x < 4:
+				g.tmpl = (*genCtx).tmplDeepChain
+			case x < 9:
+				g.tmpl = (*genCtx).tmplHeal
+			}
 		}
 		if g.tmpl != nil {
 			// templates build the in-flight state a property needs (DESIGN §4.1)
